@@ -881,6 +881,52 @@ def fn_parts(toks):
             'body_end': match_close(toks, body), 'gen_start': fn_kw + 2, 'gen_end': lp}
 
 
+def strip_ref_patterns(toks, log):
+    """R16 (general form): in every `if let PAT = &EXPR` / `while let PAT = &EXPR` the explicit reference pattern is replaced by the
+    same pattern under default binding modes: the `&` in front of the pattern's paths and the `ref` keywords are dropped
+    (RFC 2005: matching a reference with a non-reference pattern binds by reference). `ref mut` is left alone."""
+    out = list(toks)
+    i = 0
+    n = 0
+    while i < len(out):
+        if out[i].kind == 'ident' and out[i].text == 'let' and i > 0 and out[i - 1].text in ('if', 'while'):
+            j = i + 1
+            depth = 0
+            eq = None
+            while j < len(out):
+                t = out[j].text
+                if t in OPEN:
+                    depth += 1
+                elif t in (')', ']', '}'):
+                    depth -= 1
+                    if depth < 0:
+                        break
+                elif t == '=' and depth == 0:
+                    eq = j
+                    break
+                elif t in ('{', ';'):
+                    break
+                j += 1
+            if eq is not None and eq + 1 < len(out) and out[eq + 1].text == '&':
+                pat = out[i + 1:eq]
+                if any(x.text in ('&', 'ref') for x in pat) and not any(pat[k].text == 'ref' and k + 1 < len(pat) and pat[k + 1].text == 'mut' for k in range(len(pat))):
+                    kept = []
+                    for x in pat:
+                        if x.text in ('&', 'ref'):
+                            n += 1
+                            if kept and False:
+                                pass
+                            continue
+                        kept.append(x)
+                    if kept and not kept[0].ws:
+                        kept[0].ws = ' '
+                    out[i + 1:eq] = kept
+        i += 1
+    if n:
+        log.append(('R16', toks[0].file, toks[0].line, '%d `&`/`ref` token(s) dropped from reference patterns of `if let .. = &e`' % n))
+    return out
+
+
 def rename_metavars(toks, log):
     """R18: inside an extracted macro_rules body (or a function-local macro), every metavariable `$name` is
     alpha-renamed to the identifier `m_name`, so that slices of the body can bind it as an ordinary parameter."""
